@@ -225,7 +225,9 @@ func updateMinDistance(x, a, b Point, minDist s1.ChordAngle, alwaysUpdate bool) 
 
 	// Otherwise the minimum distance is to one of the endpoints.
 	xa2, xb2 := (x.Sub(a.Vector)).Norm2(), x.Sub(b.Vector).Norm2()
-	dist := s1.ChordAngle(math.Min(xa2, xb2))
+	// Clamp to the valid range like ChordAngleBetweenPoints does: for nearly
+	// antipodal points the squared distance can exceed 4 by a rounding error.
+	dist := s1.ChordAngle(math.Min(4.0, math.Min(xa2, xb2)))
 	if !alwaysUpdate && dist >= minDist {
 		return minDist, false
 	}
